@@ -46,6 +46,9 @@ Mechs == {
    ovrs |-> TTLClasses, lam |-> 10],
   [m |-> "jwt_cert", kind |-> "key", exps |-> {"far", "mid", "inleeway", "longpassed"}, cfgs |-> TTLClasses,
    ovrs |-> TTLClasses, lam |-> 0],
+  (* x5c = leaf + CA certificate (which lives much longer): the key is as valid as its leaf *)
+  [m |-> "jwt_chain", kind |-> "key", exps |-> {"far", "mid", "inleeway", "longpassed"}, cfgs |-> TTLClasses,
+   ovrs |-> {"unset", "long"}, lam |-> 0],
   [m |-> "jwt_nocert", kind |-> "key", exps |-> {"absent"}, cfgs |-> TTLClasses,
    ovrs |-> TTLClasses, lam |-> 0],
   [m |-> "jwt_finalizer", kind |-> "token", exps |-> {"near", "mid", "far"}, cfgs |-> {"unset"},
@@ -104,6 +107,7 @@ WaitCases == {
   W("oauth2_introspection", "auth", "soon", "w60", 1, HttpNone),     \* exp +2 s, validity_leeway 1 s, cache_ttl 60 s
   W("generic_session", "auth", "soon", "w60", 1, HttpNone),
   W("jwt_cert", "key", "soon3", "unset", 0, HttpNone),               \* certificate NotAfter +3 s
+  W("jwt_chain", "key", "soon3", "unset", 0, HttpNone),
   W("jwt_finalizer", "token", "mid7", "unset", 0, HttpNone),         \* token lifetime 7 s
   W("cc_finalizer", "token", "soon", "w60", 0, HttpNone),            \* expires_in 2 s, cache_ttl 60 s
   W("httpcache", "http", "absent", "zero", 0, [cc |-> "maxage0", expires |-> "absent", date |-> "now", dttl |-> "zero"]),
